@@ -380,6 +380,8 @@ TEXTUAL = [
     ("C12", "monotone-decreasing-flips-all-axes-on-entry", "tensorly/tenalg/proximal.py", "    tensor_mon = tl.copy(tensor)\n    if decreasing:\n        tensor_mon = tl.flip(tensor_mon, axis=0)", "    tensor_mon = tl.copy(tensor)\n    if decreasing:\n        tensor_mon = tl.flip(tensor_mon)"),
     ("C20", "correlation-index-conjugates-the-product", "tensorly/metrics/similarity.py", "    c_prod_mtx = tl.abs(tl.matmul(tl.conj(tl.transpose(x1)), x2))", "    c_prod_mtx = tl.abs(tl.conj(tl.matmul(tl.transpose(x1), x2)))"),
     ("C19", "plsr-predict-centres-with-batch-mean", "tensorly/regression/cp_plsr.py", "        X = T.copy(X)\n        X -= self.X_mean_\n        X_projection", "        X = T.copy(X)\n        X -= T.mean(X, axis=0)\n        X_projection"),
+    ("C02", "batched-outer-stale-mode-count", "tensorly/tenalg/core_tenalg/outer_product.py", "            res = tl.reshape(res, shape_1) * tl.reshape(tensor, shape_2)\n        else:\n            res = tensor\n\n        shape_res = tl.shape(res)\n        size_res = len(shape_res) - 1\n", "            res = tl.reshape(res, shape_1) * tl.reshape(tensor, shape_2)\n            shape_res = shape_res + shape[1:]\n            size_res += 1\n        else:\n            res = tensor\n            shape_res = tl.shape(res)\n            size_res = len(shape_res) - 1\n"),
+    ("C02", "outer-ones-padding-one-short", "tensorly/tenalg/core_tenalg/outer_product.py", "            shape_2 = (1,) * sres + shape\n", "            shape_2 = (1,) * (sres - 1) + shape\n"),
     ("C03", "cp-ctor-skips-validation", "tensorly/cp_tensor.py", "        shape, rank = _validate_cp_tensor(cp_tensor)\n        weights, factors = cp_tensor\n", "        weights, factors = cp_tensor\n        shape, rank = tuple(f.shape[0] for f in factors), factors[0].shape[1]\n"),
     ("C03", "tt-vec-of-other-family", "tensorly/tt_tensor.py", "    return tl.tensor_to_vec(tt_to_tensor(factors))", "    return tl.tensor_to_vec(tt_to_tensor(factors[::-1]))"),
     ("C03", "tucker-unfolded-wrong-mode", "tensorly/tucker_tensor.py", "        mode,\n    )", "        mode + 1,\n    )"),
@@ -497,6 +499,7 @@ TEXTUAL_TWINS = [
     ("C06", "hals-last-swept-mode-named", "tensorly/decomposition/_nn_cp.py", "            if normalize_factors and mode != modes[-1]:", "            last_swept_mode = modes[-1]\n            if normalize_factors and mode != last_swept_mode:"),
     ("C20", "correlation-index-conjugates-second-operand", "tensorly/metrics/similarity.py", "    c_prod_mtx = tl.abs(tl.matmul(tl.conj(tl.transpose(x1)), x2))", "    c_prod_mtx = tl.abs(tl.matmul(tl.transpose(x1), tl.conj(x2)))"),
     ("C19", "plsr-predict-centres-out-of-place", "tensorly/regression/cp_plsr.py", "        X = T.copy(X)\n        X -= self.X_mean_\n        X_projection", "        X = X - self.X_mean_\n        X_projection"),
+    ("C02", "batched-outer-own-bookkeeping-correct", "tensorly/tenalg/core_tenalg/outer_product.py", "            res = tl.reshape(res, shape_1) * tl.reshape(tensor, shape_2)\n        else:\n            res = tensor\n\n        shape_res = tl.shape(res)\n        size_res = len(shape_res) - 1\n", "            res = tl.reshape(res, shape_1) * tl.reshape(tensor, shape_2)\n            shape_res = shape_res + shape[1:]\n            size_res += size\n        else:\n            res = tensor\n            shape_res = tl.shape(res)\n            size_res = len(shape_res) - 1\n"),
     ("C05", "symeig-normalise-before-product", "tensorly/tenalg/svd.py", "        U = tl.dot(matrix, V) / tl.reshape(S, (1, -1))", "        U = tl.dot(matrix, V / tl.reshape(S, (1, -1)))"),
     ("C05", "flip-sign-broadcast-spelled-differently", "tensorly/tenalg/svd.py", "        U = U * signs\n        if tl.shape(V)[0] > tl.shape(U)[1]:", "        U = signs * U\n        if tl.shape(V)[0] > tl.shape(U)[1]:"),
     ("C09", "tt-svd-carry-via-dot-diag", "tensorly/decomposition/_tt.py", "        unfolding = tl.reshape(S, (-1, 1)) * V\n\n    # Getting the last factor", "        unfolding = V * tl.reshape(S, (-1, 1))\n\n    # Getting the last factor"),
